@@ -733,7 +733,13 @@ def pinned_def(ct, x: Any, w: Any) -> Any:
                  z3.And(M.isinstance_f(ct, w, "dict"),
                         z3.ForAll([k], z3.Implies(M.has(x, k), z3.And(M.has(w, k), pinned(M.dget(x, k), M.dget(w, k)))),
                                   patterns=[M.has(x, k)])),
-                 denotes(x, w)))
+                 scalar_pin(x, w)))
+
+
+def scalar_pin(x: Any, w: Any) -> Any:
+    """`scalars equal`: the same None, Python-equal, or floats within the documented tolerance"""
+    return z3.Or(z3.And(M.is_NoneV(x), M.is_NoneV(w)), M.py_eq(w, x),
+                 z3.And(M.is_floatk(x), M.is_floatk(w), M.isclose_f(w, x)))
 
 
 def noell_def(ct, x: Any) -> Any:
@@ -833,6 +839,20 @@ def _containers(lc):
     j = z3.Int("j")
     x = z3.Const("x", Obj)
     base = [noell(v), S.float_range(v), S.float_range(w)]
+
+    # ---- base case: the scalar visits (their exact contract: no error <=> conforms(S, v); result = S with value := v)
+    if _WHICH[0] in ("C04", "both"):
+        for _, cls in SCALARS:
+            Sx, R = z3.Consts(f"S_{cls} R_{cls}", Obj)
+            hyp = base + list(S.reach_def(ct, cls, Sx)) + [S.conforms_def(ct, cls, Sx, v)] + _updated_view(ct, cls, R, Sx, v)
+            if cls == "FloatSchema":
+                # a declared precision makes `equal` mean `equal after rounding`: outside what pinned() calls equal
+                hyp.append(z3.Not(S.declared(Sx, "precision")))
+                if "C04-float-nan" in ACTIVE():
+                    hyp.append(z3.Not(M.is_FNanV(v)))
+            lc.oblige(f"scalar[{cls}]:pins", hyp + [S.conforms_def(ct, cls, R, w)], pinned(v, w),
+                      {"schema": Sx, "value": v, "w": w}, {"cls": cls},
+                      text="base case of the induction: a value accepted by scalar % v carries v")
 
     # ---- alias
     Sx, R = z3.Consts("S_alias R_alias", Obj)
